@@ -203,12 +203,84 @@ fn connect(case: &Value) -> Value {
     }
 }
 
+/// C18 entry points: the string / default-settings constructors of both APIs
+fn entry(case: &Value) -> Value {
+    use ldap3::{LdapConn, LdapConnAsync, LdapConnSettings, StdStream};
+    use std::io::Read;
+    let f = case["fn"].as_str().unwrap_or("");
+    let parse_ok = case["parse_ok"].as_bool().unwrap_or(true);
+    let leaf = f.split("::").nth(1).unwrap_or("");
+    let sync = f.starts_with("LdapConn::");
+    // default settings: a plain TCP peer that accepts, records whatever the client sends unasked, and hangs up
+    let l = std::net::TcpListener::bind("127.0.0.1:0").unwrap();
+    let good = format!("ldap://127.0.0.1:{}/", l.local_addr().unwrap().port());
+    let seen = std::sync::Arc::new(std::sync::Mutex::new((false, 0usize)));
+    let seen2 = seen.clone();
+    l.set_nonblocking(true).ok();
+    let srv = std::thread::spawn(move || {
+        let t0 = std::time::Instant::now();
+        while t0.elapsed() < Duration::from_millis(1200) {
+            if let Ok((mut s, _)) = l.accept() {
+                s.set_nonblocking(false).ok();
+                s.set_read_timeout(Some(Duration::from_millis(300))).ok();
+                let mut b = [0u8; 64];
+                let n = s.read(&mut b).unwrap_or(0);
+                *seen2.lock().unwrap() = (true, n);
+                return;
+            }
+            std::thread::sleep(Duration::from_millis(10));
+        }
+    });
+    // with_settings: a pre-opened stream and a URL whose socket does not exist - only honouring the settings connects
+    let nowhere = "ldapi://%2Fnonexistent%2Fverif%2Fsock/".to_string();
+    let mut keep: Vec<Box<dyn std::any::Any>> = vec![];
+    let mut mk_settings = || { let (a, b) = std::os::unix::net::UnixStream::pair().unwrap(); keep.push(Box::new(b)); LdapConnSettings::new().set_std_stream(StdStream::Unix(a)) };
+    let url_s = if !parse_ok { "ldap://[not a url".to_string() } else if leaf == "with_settings" { nowhere.clone() } else { good.clone() };
+    // the call runs on its own thread: a setup that waits for an answer nobody will send must not hang the replay
+    let (txr, rxr) = std::sync::mpsc::channel();
+    let (leaf2, url2, good2) = (leaf.to_string(), url_s.clone(), good.clone());
+    let st = if leaf == "with_settings" { Some(mk_settings()) } else { None };
+    std::thread::spawn(move || {
+        let res: Result<(), ldap3::LdapError> = if sync {
+            match leaf2.as_str() {
+                "with_settings" => LdapConn::with_settings(st.unwrap(), &url2).map(|_| ()),
+                "new" => LdapConn::new(&url2).map(|_| ()),
+                _ => LdapConn::from_url(&url::Url::parse(&good2).unwrap()).map(|_| ()),
+            }
+        } else {
+            let rt = rt();
+            rt.block_on(async {
+                match leaf2.as_str() {
+                    "with_settings" => LdapConnAsync::with_settings(st.unwrap(), &url2).await.map(|_| ()),
+                    "new" => LdapConnAsync::new(&url2).await.map(|_| ()),
+                    _ => LdapConnAsync::from_url(&url::Url::parse(&good2).unwrap()).await.map(|_| ()),
+                }
+            })
+        };
+        let _ = txr.send(res.map_err(|e| format!("{:?}", e).split(|c: char| !c.is_alphanumeric()).next().unwrap_or("").to_string()));
+    });
+    let res: Result<(), String> = match rxr.recv_timeout(Duration::from_millis(3000)) { Ok(r) => r, Err(_) => Err("hang".to_string()) };
+    let _ = srv.join();
+    let (accepted, unasked) = *seen.lock().unwrap();
+    let bad: Option<String> = if !parse_ok && leaf != "from_url" {
+        match &res { Err(e) if e == "UrlParsing" => None, Err(e) => Some(format!("an unparsable URL gave {} instead of UrlParsing", e)), Ok(()) => Some("an unparsable URL was accepted".into()) }
+    } else if leaf == "with_settings" {
+        match &res { Ok(()) => None, Err(e) => Some(format!("the caller's settings (a pre-opened stream) were not used: {}", e)) }
+    } else if unasked > 0 {
+        Some(format!("with default settings the client sent {} bytes during connection setup (a StartTLS exchange nobody asked for?); result {}", unasked, match &res { Ok(()) => "ok".to_string(), Err(e) => e.clone() }))
+    } else {
+        match &res { Ok(()) if accepted => None, Ok(()) => Some("connected, but not to the URL given".into()), Err(e) => Some(format!("connecting to a listening socket with default settings failed: {}", e)) }
+    };
+    json!({"r": match &res { Ok(()) => "ok".to_string(), Err(e) => format!("err:{}", e) }, "accepted": accepted, "unasked_bytes": unasked, "bad": bad})
+}
+
 pub fn run(case: &Value) -> Value {
     match case["cmd"].as_str().unwrap_or("") {
         "async:request" => request(case),
         "async:modifiers" => modifiers(case),
         "async:clone" => clone_case(case),
         "async:connect" => connect(case),
+        "async:entry" => entry(case),
         "async:script" => crate::script::run(case),
         "async:syncdiff" => crate::script::syncdiff(case),
         _ => json!({"r": "unknown-cmd", "cmd": case["cmd"]}),
